@@ -164,7 +164,14 @@ def find_mask_events(b, evs):
                 elif Li is not None and Lb is not None and Li == Lb:
                     out.append(MaskEvent(p.loc, p.obj, "b3", Li, "get_mut(%s / BU) &= mask(lastbit(%s))" % (show(Li), show(Li))))
                 else:
-                    out.append(MaskEvent(p.loc, p.obj, "bad-get_mut", None,
+                    # both sides readable but about different lengths: a contradiction; one side unreadable: a spelling
+                    # this rule does not know
+                    readable = Li is not None and (Lw is not None or Lb is not None)
+                    if Li is None and (Lw is not None or Lb is not None) and is_call(idx, "min") and any(split_div_bu(a) is not None for a in idx[3]):
+                        # the index is clamped (`min(L / BU, k)`) but the width is still the one of word L / BU: whenever the
+                        # clamp takes effect the mask is applied to a word it was not computed for
+                        readable = True
+                    out.append(MaskEvent(p.loc, p.obj, "bad-get_mut" if not readable else "badx-get_mut", None,
                                          "get_mut(%s) &= mask(%s): index and width do not describe the same length"
                                          % (show(idx), show(width))))
             else:
@@ -731,6 +738,14 @@ def check_k5_conjuncts(crate, b, kk, evs, writes, aggs, dstores, lens):
         return True, ""
     if name in ("shl_assign", "shr_assign"):
         ors = [w for w in writes if w.how == "call:bitor_assign" or (w.how == "assign" and is_bin(w.value, "BitOr"))]
+        def _val(w):
+            return (w.value[0] if w.value else ("unknown", "no operand")) if w.how.startswith("call:") else w.value
+        chunk_idiom = any(mir.contains(_val(w), lambda x: isinstance(x, tuple) and x[:1] == ("un",) and x[1] == "Not" and is_bin(x[2], "Shl")
+                                       and mir.contains(x[2][2], lambda y: is_call(y, "mask"))) for w in writes)
+        if not chunk_idiom:
+            # no `& !(mask(l) << i)` clearing step anywhere: this is not the reviewed chunk-move idiom but another algorithm
+            # (word-at-a-time moves, ...); the table entry does not describe it
+            return None, "%s is not written in the chunk-move idiom the table entry describes (no `& !(mask(l) << i)` step): padding not decided here" % name
         if not ors:
             return False, "%s: no chunk is or-ed into place" % name
         for w in ors:
@@ -838,6 +853,7 @@ def check_k1(crate, b, evs, writes, aggs, dstores, lens, masks):
     if not objs and lens:
         objs = list({l.obj for l in lens})
     detail = []
+    soft = []
     for obj in objs:
         ws = [w for w in nonmask if w.obj == obj]
         wl = [w.loc for w in ws] + extra_locs.get(obj, [])
@@ -847,15 +863,24 @@ def check_k1(crate, b, evs, writes, aggs, dstores, lens, masks):
         for m in masks:
             if not (m.obj == obj):
                 continue
-            if m.form.startswith("bad"):
+            if m.form.startswith("badx"):
                 problems.append("%s: %s" % (show(obj), m.detail))
+                continue
+            if m.form.startswith("bad"):
+                # a `&= mask(..)` of the top word whose index / width the rule cannot relate to a length: a truncation in a
+                # spelling it does not read, not evidence of a missing one
+                soft.append("%s: %s" % (show(obj), m.detail))
                 continue
             if m.form == "b2":
                 # last_mut: obj must be storage allocated with exactly cap(L) words
                 if not _exact_fit(crate, b, obj, m.L):
-                    problems.append(
+                    known_other = obj[0] != "var" or (b.init_expr(obj[2]) is not None and vec_alloc_len(b.init_expr(obj[2])) is not None)
+                    (problems if known_other else soft).append(
                         "mask targets `%s.last_mut()` but the width depends on %s: the last word of the storage is the word "
-                        "holding bit len-1 only for storage allocated with exactly cap(len) words" % (show(obj), show(m.L)))
+                        "holding bit len-1 only for storage allocated with exactly cap(len) words%s"
+                        % (show(obj), show(m.L), "" if known_other else " (how the storage is allocated is not apparent here)"))
+                    if not known_other:
+                        ms.append(m)
                     continue
             if not same_len(m.L, cands):
                 problems.append("canonicalising event %s uses length %s, but %s returns with length in {%s}"
@@ -864,8 +889,24 @@ def check_k1(crate, b, evs, writes, aggs, dstores, lens, masks):
             ms.append(m)
         if not ms:
             if ws or wl:
-                problems.append("raw writes to %s (%s) are not followed by any truncation to its length"
-                                % (show(obj), "; ".join(sorted({w.how for w in ws})) or "aggregate"))
+                msg = ("raw writes to %s (%s) are not followed by any truncation to its length"
+                       % (show(obj), "; ".join(sorted({w.how for w in ws})) or "aggregate"))
+                body_masks = [b.e_call(t) for bb, t, fn in b.iter_calls() if fn and fn["name"] == "mask"]
+                # masks that can pertain to this object: on the object itself, or on a local that is moved into the
+                # aggregate's data (`let data = { let mut d = ..; d.last_mut() &= ..; d }`)
+                rel_ids = set()
+                for a in aggs:
+                    if a.dest == obj and a.data[0] != "var" and getattr(a, "data_local", None) is not None:
+                        rel_ids |= storage.flows_into(b, a.data_local)
+                near = [m for m in masks if m.obj == obj or (m.obj[0] == "var" and len(m.obj) > 2 and m.obj[2] in rel_ids)]
+                if obj[0] == "var" and len(obj) > 2:
+                    # ... or on a local this one is moved into (`let data = match .. { .. => { let mut d = ..; d } }; data.last_mut() ..`)
+                    near += [m for m in masks if m.obj[0] == "var" and len(m.obj) > 2 and m.obj != obj and obj[2] in storage.flows_into(b, m.obj[2])]
+                if near and not any(m.obj == obj and not m.form.startswith("bad") for m in near):
+                    masks_near = near
+                    soft.append(msg + " that this rule can attribute to it (a word moved into it is masked: %s)" % masks_near[0].detail[:80])
+                else:
+                    problems.append(msg)
             continue
         # a mask of the single word L / BU (forms b1, b3) truncates the object only if no raw write can reach a word
         # above it: loops over all N words / all allocated words need the all-words canonicaliser (mod2n)
@@ -912,14 +953,19 @@ def check_k1(crate, b, evs, writes, aggs, dstores, lens, masks):
         for loc in wl:
             ok, bad = b.must_pass_to_return(loc, [m.loc for m in ms])
             if not ok:
-                problems.append("a path from the raw write at bb%d to the return at bb%d bypasses the truncation (%s)"
-                                % (loc[0], bad, ms[0].detail))
+                msg = ("a path from the raw write at bb%d to the return at bb%d bypasses the truncation (%s)" % (loc[0], bad, ms[0].detail))
+                if _bypass_only_when_aligned(b, ms):
+                    soft.append(msg + " - only when the length is a multiple of the word width, where the top-word mask has nothing to clear")
+                else:
+                    problems.append(msg)
                 break
         detail.append("%s: %d raw writes, truncated by %s" % (show(obj), len(ws), ", ".join(sorted({m.detail for m in ms}))))
     if dstores:
         problems.append("stores whole storage (`x.data = ..`) outside the table of bounded writers")
     if not objs and not problems:
         problems.append("writer of unrecognised shape")
+    if soft and not problems:
+        return Writer(b, "UNCLASSIFIED", None, "; ".join(dict.fromkeys(soft)) + " - not decided")
     if problems:
         if storage.is_new_private_helper(b) and all("are not followed by any truncation" in p for p in problems):
             # a self-contained helper introduced after the review that builds a vector without any truncation at all:
@@ -929,6 +975,22 @@ def check_k1(crate, b, evs, writes, aggs, dstores, lens, masks):
             return Writer(b, "UNCLASSIFIED", None, "; ".join(problems) + " - new helper, no table entry: not decided")
         return Writer(b, "UNCLASSIFIED", False, "; ".join(problems))
     return Writer(b, "K1", True, "; ".join(detail))
+
+
+def _bypass_only_when_aligned(b, ms):
+    """every truncation event sits behind a branch taken when `L % BU != 0` (or `> 0`) for the very length L it truncates to:
+    it is skipped only for word-aligned L"""
+    from . import guard
+    for m in ms:
+        ok = False
+        for sb, cond, taken, succ, other in guard.edges_dominating(b, m.loc[0]):
+            for op, l, r in guard.relations_on_edge(cond, taken):
+                if op in ("Ne", "Gt") and r == ("int", 0) and split_rem_bu(l) is not None and m.L is not None \
+                        and (split_rem_bu(l) == m.L or mir.lin_eq(split_rem_bu(l), m.L)):
+                    ok = True
+        if not ok:
+            return False
+    return bool(ms)
 
 
 def _exact_fit(crate, b, obj, L):
